@@ -55,7 +55,7 @@ def episode(draw, index):
             payloads.append({"id": base + 200 + i, "flavour": "threading", "role": "blocked", "reg": {"how": "pre"}, "program": [["block", 60000]],
                              "end": ["return", "None"]})
     end = draw(st.sampled_from(["shutdown-outside", "shutdown-outside", "shutdown-thread", "sigint", "failure", "failure+shutdown", "failure+shutdown",
-                                "sigint+shutdown"]))
+                                "sigint+shutdown", "kbint-payload"]))
     at = draw(st.sampled_from([0, 0, 1, int(ad * 500), int(ad * 1000), int(ad * 1000) + 1, 30, 80]))
     if population == "adopters":
         script = []
@@ -96,6 +96,12 @@ def episode(draw, index):
     elif end == "shutdown-thread":
         payloads.append({"id": base + 500, "flavour": "threading", "role": "shutter", "reg": {"how": "outside"}, "program": [["shutdown"]], "end": ["return", "None"]})
         early.append({"at_ms": at + shift, "op": "adopt", "pid": base + 500})
+    if end == "kbint-payload":
+        # the interrupt is raised by a payload itself (a thread payload; or an asyncio payload, which makes asyncio tear the loop
+        # down on its own - with cancellation-absorbing payloads around that never ends on the unchanged tree, DESIGN.md section 11)
+        flv = "threading" if population == "stubborn" else draw(st.sampled_from(["threading", "asyncio"]))
+        payloads.append({"id": base + 1, "flavour": flv, "role": "failing", "kind": "kbint", "reg": {"how": "pre"},
+                         "program": [["sleep", at + shift]], "end": ["raise", "KeyboardInterrupt"]})
     if end in ("failure", "failure+shutdown"):
         k = draw(st.sampled_from(["exc", "exc", "ret"]))
         payloads.append({"id": base + 1, "flavour": draw(st.sampled_from(ALL)), "role": "failing", "kind": k, "reg": {"how": "pre"},
@@ -207,9 +213,9 @@ def judge(sc, obs) -> Result:
         for o in ops:
             if o.get("op") == "shutdown" and o.get("result") != "returned":
                 res.fail("shutdown-raised", f"{tag}: shutdown() by {o['by']} raised {o.get('raised')}: {o.get('raised_repr')}")
-        if mode in ("shutdown-outside", "shutdown-thread", "sigint", "sigint+shutdown"):
+        if mode in ("shutdown-outside", "shutdown-thread", "sigint", "sigint+shutdown", "kbint-payload"):
             if out["how"] != "returned":
-                res.fail("accept-raised-on-" + ("interrupt" if mode.startswith("sigint") else "shutdown"), f"{tag}: accept() raised {exc.get('type')}: {exc.get('repr')} cause {exc.get('cause')}")
+                res.fail("accept-raised-on-" + ("interrupt" if mode.startswith("sigint") or mode == "kbint-payload" else "shutdown"), f"{tag}: accept() raised {exc.get('type')}: {exc.get('repr')} cause {exc.get('cause')}")
         elif mode == "failure":
             if out["how"] != "raised" or exc.get("type") != "RuntimeError":
                 res.fail("failure-not-reported", f"{tag}: accept() {out['how']} {exc.get('type')}")
